@@ -8,6 +8,7 @@ import (
 	"go/types"
 	"os"
 	"path/filepath"
+	"sort"
 	"strings"
 )
 
@@ -22,6 +23,9 @@ type Specs struct {
 	Lemmas  []*Lemma
 	Funcs   map[string]*FuncSpec
 	Lines   int
+	// Foreign holds the exported lemmas of the other packages of the module (usable as axioms).
+	Foreign   []*Lemma
+	ForeignOf map[*Lemma]string // package path of a foreign lemma
 }
 
 type VarDecl struct {
@@ -166,7 +170,7 @@ func LoadSpecs(dir, pkgPath, pkgName string) (*Specs, error) {
 			body := strings.TrimSpace(rest[j+1:])
 			body = strings.TrimPrefix(body, "=")
 			pd.Body = strings.TrimSpace(body)
-			sp.Preds[pd.Name] = pd
+			sp.Preds[pkgName+"."+pd.Name] = pd
 			last = &pd.Body
 			curL, curF = nil, nil
 		case "lemma":
@@ -341,4 +345,59 @@ func parseVarDecls(s string) ([]VarDecl, error) {
 		}
 	}
 	return out, nil
+}
+
+// LoadSpecsFor loads the contracts of package pkgPath and merges in the
+// contracts (function specs, opaque marks, predicates, exported lemmas) of
+// every other package of the loaded program that has a contract file, so that
+// a caller in one package can use the contract of a callee in another.
+func LoadSpecsFor(prog *Prog, module, pkgPath string) (*Specs, error) {
+	pp := prog.PPkgs[pkgPath]
+	if pp == nil {
+		return nil, fmt.Errorf("package %s not loaded", pkgPath)
+	}
+	main, err := LoadSpecs(prog.Dir+"/"+relDir(module, pkgPath), pkgPath, pp.Name)
+	if err != nil {
+		return nil, err
+	}
+	main.ForeignOf = map[*Lemma]string{}
+	prefix := "deps.dev/" + module
+	var paths []string
+	for path := range prog.PPkgs {
+		if path != pkgPath && strings.HasPrefix(path, prefix) {
+			paths = append(paths, path)
+		}
+	}
+	sort.Strings(paths)
+	for _, path := range paths {
+		op := prog.PPkgs[path]
+		dir := prog.Dir + "/" + relDir(module, path)
+		if _, err := os.Stat(filepath.Join(dir, contractFile)); err != nil {
+			continue
+		}
+		other, err := LoadSpecs(dir, path, op.Name)
+		if err != nil {
+			return nil, err
+		}
+		for k, v := range other.Funcs {
+			if _, dup := main.Funcs[k]; !dup {
+				main.Funcs[k] = v
+			}
+		}
+		for k := range other.Opaque {
+			main.Opaque[k] = true
+		}
+		for k, v := range other.Preds {
+			main.Preds[k] = v
+		}
+		for _, l := range other.Lemmas {
+			if l.Export {
+				fl := *l
+				fl.Order = -1
+				main.Foreign = append(main.Foreign, &fl)
+				main.ForeignOf[&fl] = path
+			}
+		}
+	}
+	return main, nil
 }
